@@ -97,7 +97,7 @@ REGISTRY = {
                 "25% of the failing series reject into a directory created by an earlier patch of the same run. Non-trivial/distinct: (workspace, thread count, realised interleaving signature = sorted run-ahead depth vector + unroll counts).",
         "floor": floors(("parallel-runs-compared", 1000), ("runs-with-run-ahead", 100), ("schedule:no-run-ahead", 50), ("schedule:full-run-ahead", 50), ("run-ahead-file-patches-unrolled", 100), ("rotation-shape-runs", 30), ("cleanup-race-shape:directory-shared-by-two-save-workers", 20),
                         ("schedule:failing-owner-saves-last", 30), ("schedule:failing-owner-saves-first", 30), ("shape:reject-in-a-directory-created-by-this-run", 30),
-                        ("shape:unloadable-name-after-the-failing-patch:target", 10), ("shape:unloadable-name-after-the-failing-patch:rename-target", 10)),
+                        ("shape:unloadable-name-after-the-failing-patch:target", 5), ("shape:unloadable-name-after-the-failing-patch:rename-target", 5)),
     },
     "C07": {
         "level_text": "the real FilenameDistributor is driven (hook sub-command) over every canonical sequence of pairs within the bound and random longer ones and its map is compared with an independent union-find; in real parallel pushes the hook trace must show every file loaded by one apply worker and saved by one save worker",
